@@ -809,12 +809,18 @@ pub fn check_main(args: &[String]) -> i32 {
     let mut env_leg = json!(null);
     if !agg.env_reads.is_empty() {
         let names: Vec<String> = agg.env_reads.iter().take(3).cloned().collect();
-        println!("NOTE the code under test reads environment variables {:?}: running the environment leg (each variable set to 0, 1, 8, -1, 2592000, the empty string, true)", names);
-        let n_small = runs.min(if tier == "thorough" { 400 } else { 120 });
+        println!("NOTE the code under test reads environment variables {:?}: running the environment leg (each variable set to 0, 1, 8, 16, 100, 4096, -1, 2592000, the empty string, true, and the path of a JSON file holding an array of strings)", names);
+        let n_small = runs.min(if tier == "thorough" { 300 } else { 90 });
+        // a file an operator might point such a variable at: a JSON array of strings (the format
+        // of the interoperability tool's salt files), readable by this process
+        let file = format!("{}/replays/env-leg-strings.json", verif_dir());
+        let _ = std::fs::create_dir_all(format!("{}/replays", verif_dir()));
+        let _ = std::fs::write(&file, serde_json::to_string(&(0..64).map(|i| format!("ZW52LWxlZy1zdHJpbmctMDAwMDAw{:02}", i)).collect::<Vec<_>>()).unwrap_or_default());
+        let env_values: Vec<String> = ["0", "1", "8", "16", "100", "4096", "-1", "2592000", "", "true"].iter().map(|s| s.to_string()).chain(std::iter::once(file.clone())).collect();
         let mut batches = 0u64;
         let mut env_runs = 0u64;
         for name in &names {
-            for value in ["0", "1", "8", "-1", "2592000", "", "true"] {
+            for value in env_values.iter().map(|s| s.as_str()) {
                 *BATCH_ENV.lock().unwrap_or_else(|e| e.into_inner()) = Some((name.clone(), value.to_string()));
                 let p = run_batch(&check, tier, base ^ crate::rng::hash_str(&format!("{}={}", name, value)), 0, n_small, workers, wall_cap);
                 *BATCH_ENV.lock().unwrap_or_else(|e| e.into_inner()) = None;
@@ -831,7 +837,7 @@ pub fn check_main(args: &[String]) -> i32 {
                 }
             }
         }
-        env_leg = json!({"variables_read_by_the_code_under_test": names, "values_tried": ["0", "1", "8", "-1", "2592000", "", "true"], "batches": batches, "runs": env_runs});
+        env_leg = json!({"variables_read_by_the_code_under_test": names, "values_tried": env_values, "batches": batches, "runs": env_runs});
     }
     // campaign-level oracle: no salt and no decoy digest of one run occurs in another run
     if let Some((a, b)) = agg.token_clash {
